@@ -1522,6 +1522,10 @@ def _abs_call(obj, op, d, rule, tok, case):
         # nothing behind and answers like on a fresh object
         res = list(obj.select({})) if type(obj).__name__ == "StingyConfigurator" else list(obj.solve([{}]))
         return [sorted([tok(k), proj.I(v)] for k, v in (r[0] if isinstance(r, tuple) else r).items()) for r in res], None
+    if op == "add_q":
+        # add() made for its result only: the caller goes on with the configurator it had
+        r_, _n = _abs_call(obj, "add", d, rule, tok, case)
+        return r_, None
     if op == "add":
         rule_obj = B.build(rule)
         try:
@@ -1546,7 +1550,7 @@ def drv_reference(case):
     for c in case["calls"]:
         h, op = c["h"], c["op"]
         obj = B.build(rcp[h])
-        if op == "add":
+        if op in ("add", "add_q"):
             # direct construction with the old rules followed by the new one, under the configurator's id
             rule_obj = B.build(c["rule"])
             if rule_obj.id in [p.id for p in obj.propositions]:
@@ -1555,7 +1559,7 @@ def drv_reference(case):
                 new = cc.StingyConfigurator(*(list(obj.propositions) + [rule_obj]), id=obj.id)
                 res = {"refused": False, "node": proj.node(new, tok), "dp": sorted([tok(k), proj.I(v)] for k, v in new.default_prios.items()),
                        "poly": proj.cfgpoly(new.ge_polyhedron, tok), "sel": _abs_call(new, "select", None, None, tok, case)[0]}
-                rcp[h] = _add_rule(rcp[h], c["rule"], obj.id)
+                if op == "add": rcp[h] = _add_rule(rcp[h], c["rule"], obj.id)
         else:
             try:
                 res, _ = _abs_call(obj, op, c.get("d"), c.get("rule"), tok, case)
@@ -1726,7 +1730,7 @@ def drv_history(case):
                 "res_is_node": op in ("assume", "reduce", "negate", "reload_b64") and isinstance(res, dict) and "k" in res
                                and isinstance(step_state, dict) and "k" in step_state}
         step["raised"] = isinstance(res, dict) and "raised" in res
-        if op == "add":
+        if op in ("add", "add_q"):
             step["refused"] = False
             rule_obj_id = B.build(c["rule"]).id
             step["rule_id"] = tok(rule_obj_id)
